@@ -8,14 +8,20 @@ from rsrc import mask, Src, items_in
 
 PATTERNS = [
     (r"\bstatic\s+mut\b", "static mut"),
-    (r"\bstatic\s+\w+\s*:\s*[^=;]*\b(Mutex|RwLock|RefCell|Cell|OnceCell|OnceLock|LazyLock|Lazy|Atomic\w+)\b", "interior-mutable static"),
+    # any `static` whose declared type is not plainly immutable data (a string / byte slice, a number, a bool, a byte
+    # array): interior mutability can hide behind a user-defined wrapper type
+    (r"\bstatic\s+(?!mut\b)\w+\s*:\s*(?!&(?:'static\s+)?(?:str|\[u8\])\s*=|(?:u8|u16|u32|u64|u128|usize|i8|i16|i32|i64|i128|isize|bool|char|f32|f64)\s*=|\[(?:u8|u16|u32|u64)\s*;[^\]]*\]\s*=)", "static item of a type that may hold mutable state"),
     (r"\bthread_local!\s*[\{\(]", "thread_local!"),
     (r"\blazy_static!\s*[\{\(]", "lazy_static!"),
-    (r"\bSystemTime\b", "SystemTime (wall clock)"),
-    (r"\bInstant\s*::\s*now\b", "Instant::now (clock)"),
+    (r"\bSystemTime\b|\bUNIX_EPOCH\b", "SystemTime / UNIX_EPOCH (wall clock)"),
+    (r"\bInstant\b", "Instant (clock)"),
     (r"\brand\s*::|\bthread_rng\b|\bOsRng\b|\bgetrandom\b", "randomness"),
+    (r"\bRandomState\b|\bDefaultHasher\b|\bhash_one\b", "randomly seeded hasher"),
     (r"\bstd\s*::\s*env\b|\benv\s*::\s*var\b", "process environment"),
     (r"\bstd\s*::\s*process\s*::\s*id\b", "process id"),
+    (r"\bstd\s*::\s*fs\b|\bFile\s*::\s*(open|create)\b|\bstd\s*::\s*net\b|\bstdin\s*\(", "file / network / console input"),
+    (r"\bthread\s*::\s*current\b|\bThreadId\b", "thread identity"),
+    (r"\bas\s+\*(const|mut)\b|\{:p\}|\baddr_of(_mut)?!|\b(Rc|Arc)\s*::\s*as_ptr\b", "address of an object used as data"),
 ]
 HASH_DECL = re.compile(r"\b(HashMap|HashSet)\b")
 HASH_ITER = re.compile(r"\.\s*(iter|iter_mut|into_iter|keys|values|values_mut|into_keys|into_values|drain)\s*\(|\bfor\b[^;{]*\bin\b")
@@ -60,14 +66,27 @@ def scan(repo):
                     hits.append({"file": rel, "line": txt.count("\n", 0, mm.start()) + 1, "what": what,
                                  "text": src.text.split("\n")[txt.count("\n", 0, mm.start())].strip()[:160]})
             if HASH_DECL.search(txt):
-                # a hash container is only a problem when it is iterated (random seed => order differs between apps)
+                # a hash container is only a problem when it is iterated (random seed => order differs between apps):
+                # names declared with a hash type anywhere in the file (fields, locals, parameters), iterated anywhere
+                names = set(re.findall(r"\b(\w+)\s*:\s*(?:&\s*(?:mut\s+)?)?(?:std\s*::\s*collections\s*::\s*)?Hash(?:Map|Set)\b", txt))
+                names |= set(re.findall(r"\blet\s+(?:mut\s+)?(\w+)\s*(?::[^=;]*)?=\s*(?:std\s*::\s*collections\s*::\s*)?Hash(?:Map|Set)\s*::", txt))
+                names |= set(re.findall(r"\blet\s+(?:mut\s+)?(\w+)\s*:\s*[^=;]*\bHash(?:Map|Set)\b", txt))
                 lines = txt.split("\n")
-                for k, ln in enumerate(lines):
-                    if HASH_DECL.search(ln):
-                        # look for iteration in the enclosing 40 lines
-                        window = "\n".join(lines[k:k + 40])
-                        if HASH_ITER.search(window):
-                            hits.append({"file": rel, "line": k + 1, "what": "iteration over HashMap/HashSet (randomly seeded order)",
+                done = False
+                for nm in sorted(names):
+                    it = re.compile(r"\b%s\b\s*\.\s*(iter|iter_mut|into_iter|keys|values|values_mut|into_keys|into_values|drain)\s*\(|\bfor\b[^;{]*\bin\b[^;{]*\b%s\b" % (re.escape(nm), re.escape(nm)))
+                    mm = it.search(txt)     # over the whole text: `name` and `.into_iter()` may sit on different lines
+                    if mm:
+                        k = txt.count("\n", 0, mm.start())
+                        hits.append({"file": rel, "line": k + 1, "what": "iteration over the HashMap/HashSet `%s` (randomly seeded order)" % nm,
+                                     "text": src.text.split("\n")[k].strip()[:160]})
+                        done = True
+                        break
+                if not done:
+                    # the hash container is built and consumed in one expression (no name): collect::<HashSet<_>>().into_iter() etc.
+                    for k, ln in enumerate(lines):
+                        if HASH_DECL.search(ln) and HASH_ITER.search(ln):
+                            hits.append({"file": rel, "line": k + 1, "what": "iteration over a HashMap/HashSet (randomly seeded order)",
                                          "text": src.text.split("\n")[k].strip()[:160]})
                             break
     return files, hits
